@@ -16,6 +16,9 @@ import GojaModel.C19.ReplacerThm
 import GojaModel.C19.TokSound
 import GojaModel.C19.ReviverMut
 import GojaModel.C19.MechThm
+import GojaModel.C19.Utf8Thm
+import GojaModel.C19.QuoteMechThm
+import GojaModel.C19.AllowListWf
 
 namespace GojaModel.C19
 
@@ -40,6 +43,12 @@ theorem gapOfNumber_ws (n : Nat) : AllWs (gapOfNumber n) := by
   intro c hc
   rw [(gap_clamped_number n).2.2 c hc]
   rfl
+
+/-- mechanism level (QuoteMech.lean: builtin_json.go:493 quote() fed by string_unicode.go:81 lenientUtf16Decoder.ReadRune with
+    its one unit of push-back): it REFINES QuoteJSONString for every list of code units — in particular a pushed-back
+    unit is re-examined as a possible pair start (lone high surrogate followed by a valid pair). -/
+theorem quote_mechanism_refines_spec (s : Str) : quoteMech s = quote s :=
+  quoteMech_eq_quote s
 
 /-- quote_escapes_sound: for EVERY list of code units (lone surrogates, controls, quotes, backslashes …) the output of
     QuoteJSONString is a string token that lexes back to exactly the same units, in any context. -/
@@ -205,6 +214,13 @@ theorem reviver_current_value {σ : Type} (R : ReviverM σ) (f : Nat) (s : σ) (
     walkM R (f + 1) s holder key = some (R s holder key (rGet holder key)) :=
   walkM_noncontainer R f s holder key h h'
 
+/-- … for every well-formed value and every list of 16-bit keys, with no further hypothesis -/
+theorem allowlist_roundtrip_wf (items : List Str) (gap : Str) (hg : AllWs gap) (v : JVal) (hv : WfVal v)
+    (hk : ∀ k ∈ items, WfStr k) :
+    parseRaw (stringifyPL items gap v) = some (project (propList items) v) :=
+  allowlist_roundtrip items gap hg v
+    (project_wf (propList items) (fun k hk' => hk k ((propList_spec items).2 k |>.mp hk')) v hv)
+
 /-- duplicate keys: the last value wins at the position of the first occurrence; "__proto__" is a key like any other -/
 theorem upsert_existing (k : Str) (v v' : JVal) (pre post : List (Str × JVal)) (h : k ∉ keys pre) :
     upsert k v' (pre ++ (k, v) :: post) = pre ++ (k, v') :: post := by
@@ -247,6 +263,22 @@ theorem tokenizer_delegation_refines_spec (t : Str) : gojaParseRaw t = parseRaw 
 theorem tokenizer_accepts_nothing_beyond_grammar : ¬ ∃ t v, gojaParseRaw t = some v ∧ ¬ Text t v := by
   rintro ⟨t, v, h, hn⟩
   exact hn (gojaParseRaw_sound h)
+
+/-- the documented exception, formally: goja's JSON.parse (UTF-8 view of the text, token-stream parser, object building)
+    IS the specified parse of the text in which raw lone surrogates and escaped surrogates outside an escaped pair are
+    replaced by U+FFFD — nothing else differs -/
+theorem goja_parse_is_spec_parse_of_utf8_view (N : NumCanon) (t : Str) : gojaParse N t = parse N (fixText t) :=
+  gojaParse_eq N t
+
+/-- … so on every text that the UTF-8 view leaves alone it is exactly JSON.parse -/
+theorem goja_parse_exact_when_utf8_view_is_identity (N : NumCanon) (t : Str) (h : fixText t = t) :
+    gojaParse N t = parse N t := by
+  rw [gojaParse_eq, h]
+
+/-- a text without surrogate code units is untouched by the first half of the view -/
+theorem utf8_view_keeps_surrogate_free_units (t : Str) (h : ∀ u ∈ t, isHigh u = false ∧ isLow u = false) :
+    fixLone t = t :=
+  fixLone_id t h
 
 /-- number tokens: the lexer's result is a lexeme of the number grammar and a prefix of the input … -/
 theorem number_lexer_sound (s l r : Str) (h : parseNum s = some (l, r)) : NumGram l ∧ s = l ++ r :=
